@@ -826,12 +826,24 @@ fn run_pazip(v: &str, x: &[u8], _t: &[u8], _tr: Train) -> Outcome {
         Ok(p) => p,
         Err(_) => return Outcome::skip("construct_err"),
     };
+    let used = RefCell::new(String::new());
     let rt = roundtrip(
         x,
         || {
             let mut c = proto.clone();
             let mut y = Vec::new();
-            c.compress(x, &mut y).map_err(es)?;
+            let st = c.compress(x, &mut y).map_err(es)?;
+            let mut u = Vec::new();
+            if st.literal_count > 0 {
+                u.push("literal");
+            }
+            if st.local_matches > 0 {
+                u.push("local");
+            }
+            if st.global_matches > 0 {
+                u.push("global");
+            }
+            *used.borrow_mut() = if u.is_empty() { "unreported".to_string() } else { u.join("+") };
             Ok((y, c))
         },
         |y, mut c| {
@@ -840,7 +852,11 @@ fn run_pazip(v: &str, x: &[u8], _t: &[u8], _tr: Train) -> Outcome {
             Ok(z)
         },
     );
-    outcome(x, "roundtrip", rt, |sym| join(&[preset, sym, len_class(x.len()), alpha_class(x)]))
+    // pass classes show which strategies the selector used (vacuity check: matches must occur)
+    match outcome(x, "roundtrip", rt, |sym| join(&[preset, sym, len_class(x.len()), alpha_class(x)])) {
+        Outcome::Pass { nontrivial, class } => Outcome::Pass { nontrivial, class: format!("{class}|strategies={}", used.borrow()) },
+        o => o,
+    }
 }
 
 // =================================================================================================
@@ -1097,10 +1113,8 @@ fn main() {
         for a in ["initial", "None", "Zstd(3)", "SimdLz77", "Huffman"] {
             ad.push(format!("default/default/untrained/{a}"));
         }
-        for (r, c, t) in [("speed", "eager", "trained"), ("quality", "eager", "untrained"), ("default", "default", "trained")] {
-            for a in ["None", "Zstd(3)", "SimdLz77"] {
-                ad.push(format!("{r}/{c}/{t}/{a}"));
-            }
+        for a in ["None", "Zstd(3)", "SimdLz77"] {
+            ad.push(format!("quality/eager/untrained/{a}"));
         }
         let algs = ["None", "Zstd(1)", "Zstd(9)", "SimdLz77"];
         for a in algs {
@@ -1111,6 +1125,15 @@ fn main() {
             }
         }
         reg.add(Enum(Family { name: "AdaptiveCompressor", variants: ad, trains: same.clone(), space: front.clone(), run: run_adaptive }));
+        // `train` runs every algorithm (incl. the O(n*window) LZ coder, twice) on the samples: smaller space
+        let mut adt = Vec::new();
+        for (r, c) in [("speed", "eager"), ("default", "default")] {
+            for a in ["None", "Zstd(3)", "SimdLz77"] {
+                adt.push(format!("{r}/{c}/trained/{a}"));
+            }
+        }
+        adt.push("default/default/trained/Zstd(1)->SimdLz77".to_string());
+        reg.add(Enum(Family { name: "AdaptiveCompressor/trained", variants: adt, trains: same.clone(), space: gen_lz.clone(), run: run_adaptive }));
         let mut rtv = Vec::new();
         for m in ["UltraLowLatency", "LowLatency", "Balanced", "HighCompression"] {
             for d in ["far", "expired"] {
